@@ -226,8 +226,12 @@ func multiF1(mask int, vs int) *Multivariant {
 		need["SUBTITLES"] = true
 	}
 	if bit(8) {
-		v.ClosedCaptions = "cc"
-		need["CLOSED-CAPTIONS"] = true
+		if vs%3 == 2 {
+			v.ClosedCaptions = "NONE" // the enumerated value: no closed captions in any variant (RFC 8216 4.3.4.2)
+		} else {
+			v.ClosedCaptions = "cc"
+			need["CLOSED-CAPTIONS"] = true
+		}
 	}
 	m.Variants = []*MultivariantVariant{v}
 	if bit(9) {
